@@ -26,24 +26,13 @@ PROOF_FILES = ["theories/Props/C19.v", "theories/Proofs/GjkCaps.v", "theories/Pr
                "theories/Gen/NarrowCaps.v"]
 LIMIT = 1000
 MAX_FLOAT = 1.7976931348623157e308
-KNOWN_FILE = cm.VERIF / "known_findings_C19.json"
 SMOOTH = {"sphere", "ellipsoid", "capsule", "cylinder", "cone", "disk", "ellipse"}
 CALL_TIMEOUT = 20
 
 
 def load_known():
-    out = {}
-    if KNOWN_FILE.exists():
-        for e in json.loads(KNOWN_FILE.read_text())["entries"]:
-            if e.get("property") == PID and e.get("status") == "finding":
-                out[e["id"]] = e
-    for e in cm.load_known(PID):
-        out[e["id"]] = e
-    glob = cm.VERIF / "known_findings.json"
-    fixed = set()
-    if glob.exists():
-        fixed = {e["id"] for e in json.loads(glob.read_text())["entries"] if e.get("status") == "fixed"}
-    return {k: v for k, v in out.items() if k not in fixed}
+    """status=finding entries of property C19 in /verif/known_findings.json"""
+    return {e["id"]: e for e in cm.load_known(PID)}
 
 
 def prim_ok(spec):
@@ -328,10 +317,9 @@ def run(tier, seed, replay=None):
             calls_total += 1
             npairs = len(c["scene"]["colliders"]) ** 2
             if "exc" in r:
-                kid = "F-J1" if (r["exc"] == "TypeError" and "got None" in r.get("exc_msg", "")) else None
                 bump(f"self_collision:EXC:{r['exc']}")
                 report(f"self_collision.detect raised {r['exc']}: {r.get('exc_msg', '')}", dict(scene=c["scene"], meta=c["meta"], result=r),
-                       "self_collision.detect", kid)
+                       "self_collision.detect")
             elif r["support_calls"] > LIMIT * npairs:
                 R.failure(f"self_collision: {r['support_calls']} support evaluations for {npairs} candidate pairs",
                           dict(scene=c["scene"], meta=c["meta"]), site="self_collision.detect")
@@ -346,9 +334,6 @@ def run(tier, seed, replay=None):
         for op, r in zip(c["ops"], rr):
             key = r["fn"] + ("+acc" if op.get("kw", {}).get("use_nesterov_acceleration") else "")
             byfn[key] = r
-        rj = byfn.get("jolt_full", {})
-        dj = rj.get("d") if "exc" not in rj else None
-        grazing = dj is not None and math.isfinite(dj) and dj <= 1e-3 * L
         nontrivial = False
         for key, r in byfn.items():
             calls_total += 1
@@ -366,12 +351,10 @@ def run(tier, seed, replay=None):
                     bump("epa_full:capacity_assertion(allowed)")
                     continue
                 kid = None
-                if r["exc"] == "TypeError" and "got None" in r.get("exc_msg", "") and r["fn"] == "b_jolt" and grazing:
-                    kid = "F-J1"
-                elif r["fn"] == "epa_full" and r.get("n_points") is not None and r["n_points"] < 4 and r.get("garbage_rows", 1) > 0:
+                if r["fn"] == "epa_full" and r.get("n_points") is not None and r["n_points"] < 4 and r.get("garbage_rows", 1) > 0:
                     kid = "F2-C19"
                 elif r["fn"] == "epa_full" and r["exc"] == "AssertionError" and "n_faces < self.max_faces" in r.get("tb", ""):
-                    kid = "F-EPA-CAP"       # the capacity assertion, but on a pair of polytopes
+                    kid = "F19-C19"         # the capacity assertion, but on a pair of polytopes
                 report(f"{key} raised {r['exc']}: {r.get('exc_msg', '')}", case, site, kid)
                 continue
             bump(f"{key}:ok")
